@@ -533,3 +533,24 @@ Proof.
   clear H. induction ps as [|p ps IH]; [reflexivity|]. cbn [forallb] in *. apply andb_true_iff in Hd. destruct Hd as [H1 H2].
   rewrite (IH H2), andb_true_r. destruct p; cbn in *; try reflexivity; discriminate.
 Qed.
+
+(* ---- F9: the ONLY holder of an uncounted request is deleted (real tables) ----
+   variable 0 (component 1, atom group 2), bias 3 on it; the bias requests hide_Jacobian_force (12, user) of the variable by a
+   top-level enable; the bias is deleted: the feature stays on, whereas in the history without the bias it is off *)
+From CV Require Import Gen.GenDeps.
+Import ListNotations.
+Definition f9_avail (k : nat) : list bool := repeat true k.
+Definition f9_base : list mop :=
+  [MNewColvar (f9_avail 38) [(f9_avail 18, [(f9_avail 11, [1])])];
+   MPrim (OpEnable 0 34 false true false); MPrim (OpEnable 0 35 false true false); MPrim (OpEnable 0 0 false true false)].
+Definition f9_holder : list mop :=
+  [MNewBias (f9_avail 17) [0]; MPrim (OpEnable 3 0 false true false); MPrim (OpEnable 0 12 false true false)].
+
+Lemma only_holder_witness : exists m0 m m',
+  m_run gen_tables 40 f9_base (m_empty 3) = Some m0 /\ is_enabled (m_objs m0) 0 12 = false /\
+  m_run gen_tables 40 f9_holder m0 = Some m /\ is_enabled (m_objs m) 0 12 = true /\ rc (m_objs m) 0 12 = 0%Z /\
+  m_run gen_tables 40 [MDeleteBias 3] m = Some m' /\ alive_in (m_info m') 3 = false /\
+  is_enabled (m_objs m') 0 12 = true /\ is_enabled (m_objs m') 0 11 = true.
+Proof.
+  do 3 eexists. split; [vm_compute; reflexivity|]. repeat (split; [vm_compute; reflexivity|]). vm_compute. reflexivity.
+Qed.
